@@ -65,6 +65,11 @@ CHECKS = {
    technique="explicit-state BFS over request / early-response / response / proxy-error / clock histories through a real engine with a concurrent quota (its own GC goroutine running), against an occupancy reference; schedule exploration of concurrent arrivals and response-vs-error",
    text="Three configurations (max 1, max 2, max 1 followed by a second rate quota on the same path); every history up to depth 6 (7 thorough) over three transaction slots of request, request answered early by the gateway, response, proxy error report and clock steps of 1 s / 3 s runs through a real streams.Stream in virtual time. A request may be admitted only while fewer than max admitted, un-ended, un-expired transactions exist; it may be refused only while max slots can still be held (no leaked slot: ended or expired+GC'd transactions free theirs). Schedules (<=2 preemptions) cover two arrivals competing for one slot and a holder's response racing its error report followed by probes.",
    note="slots of abandoned transactions must be free one GC interval after their expiry; scheduling decisions at sync operations of streams/resources and streams/lunar-context; virtual time"),
+
+ "C15": dict(level="exploration", engine="seqx-product", design="§3 C15",
+   technique="bounded-exhaustive enumeration of access-log record streams x every batch composition x restart points through the real discovery.Run / State / convergent URL tree, with conservation and batch-invariance oracles",
+   text="Every record stream up to length 3 over 20 record letters (5 URLs of which three converge under an inferred path parameter, 4 method/status/duration/consumer/interceptor profiles), length 4 over 10 letters and length 5 over 4 URLs (thorough: one longer each) is processed by the real aggregation plugin in every composition into consecutive batches, and again with a restart (state read back from disk, tree rebuilt) after every batch. Final state: counts sum to the number of records, per endpoint and per consumer count = records attributed = sum of status counts, min/max = extreme timestamps, averages = exact means within 1e-4; identical statistics for all compositions; totals preserved across restarts.",
+   note="attribution uses the run's own final URL tree (lookup only); convergence threshold 2; after a restart only totals are compared"),
 }
 NA_REASON = "check not built yet in this round (work in progress; planned per DESIGN.md §3)"
 def main():
